@@ -17,6 +17,7 @@ import (
 	"strings"
 	"sync"
 	"testing"
+	"time"
 
 	"verif/internal/vk"
 
@@ -669,13 +670,14 @@ func (c Case) sig() string {
 // table when the defects are fixed; open entries of known_findings.json
 // (r.OpenClass) add to it.
 var knownOpen = map[string]bool{
-	"wrong-value/fields-dropped-before-call": true,
-	"wrong-value/unknown-method-on-pointer":  true,
-	"clean-failure/index-then-method":        true,
-	"clean-failure/call-call-index":          true,
-	"clean-failure/for-over-chained-calls":   true,
-	"panic/negative-index":                   true,
-	"panic/method-on-nil-pointer":            true,
+	"wrong-value/fields-dropped-before-call":           true,
+	"wrong-value/unknown-method-on-pointer":            true,
+	"clean-failure/index-then-method":                  true,
+	"clean-failure/three-indexed-levels-similar-names": true,
+	"clean-failure/call-call-index":                    true,
+	"clean-failure/for-over-chained-calls":             true,
+	"panic/negative-index":                             true,
+	"panic/method-on-nil-pointer":                      true,
 }
 
 func isOpen(r *vk.Run, class string) bool { return knownOpen[class] || r.OpenClass(class) }
@@ -695,20 +697,70 @@ func segSig(seg []Step) string {
 	return string(b)
 }
 
+func reRule(re string) func([]Step, string) bool {
+	rx := regexp.MustCompile(re)
+	return func(seg []Step, _ string) bool { return rx.MatchString(segSig(seg)) }
+}
+
+// similarIndexedNames: the expression has three or more member levels separated
+// by indexes (a[i].b[j].c or a[i].b[j].c[k]) and two of those members have
+// names of which one contains the other (r.M[k].M[k].M[k], r.M[k].IM[i].IM,
+// and M[i].M[k].M[k] for a variable called M).
+func similarIndexedNames(seg []Step, base string) bool {
+	var names []string
+	for i, s := range seg {
+		if !s.X {
+			continue
+		}
+		switch {
+		case i == 0:
+			names = append(names, base)
+		case seg[i-1].F != "":
+			names = append(names, seg[i-1].F)
+		case seg[i-1].M != "":
+			names = append(names, seg[i-1].M)
+		default:
+			names = append(names, "")
+		}
+	}
+	// the member selected right after the last index counts as the third level
+	for i := len(seg) - 1; i > 0; i-- {
+		if seg[i-1].X {
+			if !seg[i].X {
+				names = append(names, seg[i].F+seg[i].M)
+			}
+			break
+		}
+	}
+	if len(names) < 3 {
+		return false
+	}
+	for i := range names {
+		for j := i + 1; j < len(names); j++ {
+			if names[i] != "" && names[j] != "" && (strings.Contains(names[i], names[j]) || strings.Contains(names[j], names[i])) {
+				return true
+			}
+		}
+	}
+	return false
+}
+
 var shapeRules = []struct {
 	class    string
-	re       *regexp.Regexp
+	match    func(seg []Step, base string) bool
 	iterable bool // the rule applies to the expression used as a for iterable only
 }{
 	// x.A().F.B() is evaluated as x.A().B(): the fields between two calls are dropped
-	// (also x[i].F.B() when x is a plain variable: evaluated as x[i].B())
-	{"wrong-value/fields-dropped-before-call", regexp.MustCompile(`MF+M|^XF+M`), false},
+	// (also x[i].F.B() when x is a plain variable, and x.A().C[i].F.B(): evaluated as x[i].B() / x.A().C[i].B())
+	{"wrong-value/fields-dropped-before-call", reRule(`MF+M|^XF+M|MFXF+M`), false},
 	// a[i].M(), a[i].F.M(), a[i].M().F: "unknown identifier" (AF-22)
-	{"clean-failure/index-then-method", regexp.MustCompile(`X.*M`), false},
+	{"clean-failure/index-then-method", reRule(`X.*M`), false},
+	// r.M[k].M[k].M[k]: "unknown identifier" or empty output (AF-22)
+	{"clean-failure/three-indexed-levels-similar-names", similarIndexedNames, false},
 	// x.A().B()[i]: "invalid nested index access"
-	{"clean-failure/call-call-index", regexp.MustCompile(`MMX`), false},
+	{"clean-failure/call-call-index", reRule(`MMX`), false},
 	// for (k, v) in x.A().B() { : the block is swallowed by the chained call
-	{"clean-failure/for-over-chained-calls", regexp.MustCompile(`M.*M$`), true},
+	{"clean-failure/for-over-chained-calls", reRule(`M.*M$`), true},
 }
 
 // shapeClasses lists the known-shape classes this case belongs to (by syntax
@@ -727,7 +779,11 @@ func (c Case) shapeClasses() []string {
 			if rule.iterable && i != iter {
 				continue
 			}
-			if rule.re.MatchString(segSig(seg)) {
+			base := c.Root
+			if i > 0 {
+				base = c.Cuts[i-1].V
+			}
+			if rule.match(seg, base) {
 				out = append(out, rule.class)
 				break
 			}
@@ -771,6 +827,13 @@ func noteBad(c Case, f *vk.Fail) {
 	if f.Class != "" {
 		cat = f.Class
 	}
+	if os.Getenv("C11_NAMES") != "" {
+		cat = ""
+		for _, st := range c.Steps {
+			cat += st.F + st.M + "."
+		}
+		cat += " " + c.sig()
+	}
 	tpl := c.template()
 	badMu.Lock()
 	b := bads[cat]
@@ -803,6 +866,8 @@ func (s *stats) add(sig string, k int) {
 	s.mu.Unlock()
 }
 
+var refRoots = [2]*Root{mkRoot(0), mkRoot(1)}
+
 func render(c Case) (string, vk.Res) {
 	src := c.template()
 	d := c.data()
@@ -823,7 +888,8 @@ func checkCase(r *vk.Run, c Case) (out *vk.Fail) {
 		r.Exclude(cls)
 		return nil
 	}
-	root := mkRoot(c.Variant)
+	// the reference walks its own copy of the data (never handed to plush, never written)
+	root := refRoots[c.Variant]
 	start := cur{reflect.ValueOf(root), true}
 	if !c.Ptr {
 		start = cur{reflect.ValueOf(*root), true}
@@ -1381,6 +1447,62 @@ func enumerate(maxLen, mode int, emit func(steps []Step, broken string)) {
 	rec(tRoot, nil, "")
 }
 
+// collSteps lists the steps from struct type t that lead to a collection:
+// collection-typed fields and argument-less methods returning one.
+func collSteps(t reflect.Type) []cand {
+	var out []cand
+	for _, c := range cands(t) {
+		if c.broken != "" || c.next == nil || len(c.st.A) > 0 {
+			continue
+		}
+		switch c.next.Kind() {
+		case reflect.Slice, reflect.Array, reflect.Map:
+			out = append(out, c)
+		}
+	}
+	return out
+}
+
+// deepPaths: two or three INDEXED levels below the root (beyond the length
+// bound of enumerate): r.C1[i].C2[j].C3[k] and r.C1[i].C2[j].<tail>, for every
+// combination of collection members, two index choices and four
+// literal/variable patterns.
+func deepPaths(emit func(steps []Step)) {
+	idx := func(t reflect.Type, alt int, v bool) Step {
+		switch {
+		case t.Kind() == reflect.Map && t.Key().Kind() == reflect.String:
+			return Step{X: true, A: sa([]string{"a", "b"}[alt], v)}
+		case t.Kind() == reflect.Map:
+			return Step{X: true, A: ia([]int{1, 3}[alt], v)}
+		}
+		return Step{X: true, A: ia(alt, v)}
+	}
+	elem := func(t reflect.Type) reflect.Type {
+		e := t.Elem()
+		for e.Kind() == reflect.Ptr {
+			e = e.Elem()
+		}
+		return e
+	}
+	tails := [][]Step{{{F: "Name"}}, {{M: "Hello"}}, {{F: "In"}, {F: "Name"}}, {{F: "PName"}}}
+	pats := [][3]bool{{false, false, false}, {true, true, true}, {false, true, false}, {true, false, true}}
+	for _, c1 := range collSteps(tRoot) {
+		for _, c2 := range collSteps(elem(c1.next)) {
+			for alt := 0; alt < 2; alt++ {
+				for _, pat := range pats {
+					base := []Step{c1.st, idx(c1.next, alt, pat[0]), c2.st, idx(c2.next, alt, pat[1])}
+					for _, tl := range tails {
+						emit(append(append([]Step(nil), base...), tl...))
+					}
+					for _, c3 := range collSteps(elem(c2.next)) {
+						emit(append(append([]Step(nil), base...), c3.st, idx(c3.next, alt, pat[2])))
+					}
+				}
+			}
+		}
+	}
+}
+
 // usages lists the cut sets tried for a path in the exhaustive phase: plain
 // emit, one let at every position, one for at every index step, and
 // let-then-for / for-then-let pairs around each index step.
@@ -1434,6 +1556,12 @@ func TestProp(t *testing.T) {
 	r.ReplayCommitted()
 
 	// (E) exhaustive walks
+	t0 := time.Now()
+	if n, _ := strconv.Atoi(os.Getenv("C11_RAPID_ONLY")); n > 0 { // debug aid
+		r.Rapid("walks", n, func(t *rapid.T) *vk.Fail { return checkCase(r, genCase(t)) })
+		dumpShapes(r)
+		return
+	}
 	L := r.Pick(3, 4)
 	var paths []pathRec
 	enumerate(L, 0, func(s []Step, b string) { paths = append(paths, pathRec{s, b}) })
@@ -1449,24 +1577,40 @@ func TestProp(t *testing.T) {
 			}
 		})
 	}
-	var ncases int64
-	var cmu sync.Mutex
-	r.Parallel(int64(len(paths)), 0, func(i int64) {
-		p := paths[i]
-		var n int64
+	nwalk := len(paths)
+	var ndeep int64
+	deepPaths(func(s []Step) {
+		if r.Thorough() || ndeep%3 == int64(r.Seed%3) {
+			paths = append(paths, pathRec{s, ""})
+		}
+		ndeep++
+	})
+	type cell struct {
+		path int32
+		cuts []Cut
+		v    int8
+	}
+	var cells []cell
+	for i, p := range paths {
 		for _, cuts := range usages(p.steps, []string{"x", "M"}[i%2]) {
 			for variant := 0; variant < 2; variant++ {
-				c := Case{Variant: variant, Ptr: (i+int64(variant))%2 == 1, Root: "r", Steps: p.steps, Cuts: cuts}
-				r.Check(checkCase(r, c))
-				n++
+				cells = append(cells, cell{int32(i), cuts, int8(variant)})
 			}
 		}
-		cmu.Lock()
-		ncases += n
-		cmu.Unlock()
+	}
+	ncases := int64(len(cells))
+	r.Parallel(ncases, 0, func(i int64) {
+		k := cells[i]
+		c := Case{Variant: int(k.v), Ptr: (int(k.path)+int(k.v))%2 == 1, Root: "r", Steps: paths[k.path].steps, Cuts: k.cuts}
+		r.Check(checkCase(r, c))
 	})
+	_ = nwalk
+	r.Subspace(fmt.Sprintf("paths with 2 or 3 indexed levels r.C1[i].C2[j].C3[k] / r.C1[i].C2[j].tail over every combination of collection-valued members (x 2 index choices x 4 literal/variable patterns; quick tier: every 3rd) x usages x 2 data recipes: %d paths", ndeep), ndeep, r.Thorough())
 	r.Subspace(fmt.Sprintf("all type-graph walks of <= %d steps ending at a leaf or a broken step, literal x variable indexes (%d paths) x usages (emit, let at each position, for at each index step, let+for) x 2 data recipes", L, full), ncases, true)
 
+	if debug {
+		fmt.Printf("E phase done after %v\n", time.Since(t0))
+	}
 	// (R) random walks up to 7 steps
 	r.Rapid("walks", r.Pick(6000, 60000), func(t *rapid.T) *vk.Fail {
 		return checkCase(r, genCase(t))
